@@ -252,6 +252,18 @@ def rule_C09_no_other_alloc(ctx, rule="C09-onlygate"):
             if e.kind in ("leaf", "mono-leaf"):
                 if e.name in ALLOC_SITES or (e.crate in ("alloc", "std") and e.name not in RELEASE_SITES and e.name not in BORROW_ONLY_LEAVES and not _borrow_like(e.name)):
                     bad.append(e)
+        # a core-crate generic instantiated with a std container builds one: `iter.collect::<String>()`,
+        # `x.into()` / `From::from` to String / Vec / Box
+        class _E:
+            pass
+        for bb, t in b.calls():
+            nm = callee_name(t)
+            if nm.startswith("core::") and not t.get("local_key") and nm.rsplit("::", 1)[-1] in ("collect", "into", "from", "from_iter", "to_owned", "unzip", "sum", "product", "try_collect", "collect_into"):
+                ga = [g for g in (t.get("generic_args") or []) if g.strip().startswith(("alloc::string::String", "alloc::vec::Vec<", "alloc::boxed::Box<", "alloc::collections::", "std::collections::"))]
+                if ga:
+                    e = _E()
+                    e.name, e.line = "%s::<%s>" % (nm, ga[0]), t.get("line") or 0
+                    bad.append(e)
         if bad:
             ctx.ob(rule, path, "direct-alloc", False, detail="allocating library call outside the heap buffer module: %s" % "; ".join("%s (line %d)" % (e.name, e.line) for e in bad[:3]))
         else:
